@@ -7,3 +7,8 @@ package sno
 // is not exhausted after that many executions). Added to the sno package through the build
 // overlay; the module cache is not modified.
 func VerifResetPartitions() { partitions = ^uint32(0) }
+
+// VerifSkipPartitions advances the partition counter as the creation of n generators from
+// defaults does (creation has no other process-wide effect: see genPartition), so that the
+// state "n generators have been created and discarded" is reached without creating them.
+func VerifSkipPartitions(n uint32) { partitions += n }
